@@ -3,6 +3,11 @@ import Genshi.WireCore
 import Genshi.Model.Reader
 import Genshi.Model.OutputPipeline
 import Genshi.Lemmas.ReaderDocView   -- specification-side definitions of the document theorems (Mathlib-free)
+import Genshi.Model.OutputWsForest
+import Genshi.Lemmas.OutputWsSpec     -- `normForest`, `wsDom`: specification side of the strip theorems (Mathlib-free)
+import Genshi.Lemmas.ReaderTreeMixed  -- `forestMixedOk`, `forestPiecesXM`: mixed-namespace tree theorems (Mathlib-free)
+import Genshi.Lemmas.ReaderXmlViewMixed  -- `forestPiecesQ`, `mergeGoQ` (Mathlib-free)
+import Genshi.Lemmas.OutputMarkupForest  -- `plainF`, `mkDom`: Markup text leaves (Mathlib-free)
 namespace Driver.C08
 open Genshi Genshi.Reader Genshi.Output Genshi.Sexp
 
@@ -93,30 +98,55 @@ def doctype? : Sexp → Option (Option DocTypeT)
 
 def out (why : String) : Sexp := .list [.atom "out", .atom why]
 
-def expectHtml (dopt : Option DocTypeT) (s : Stream) : Sexp :=
+/-- does the forest hold a Markup (pre-escaped) text leaf -/
+def hasMarkup (ns : List Node) : Bool :=
+  (flattenList ns).any fun e => match e with
+    | .text _ true => true
+    | _ => false
+
+def expectHtml (strip : Bool) (dopt : Option DocTypeT) (s : Stream) : Sexp :=
   match forestOf s with
   | none => out "not-nested"
   | some ns =>
-    let (_, dt, body) := splitProlog ns
-    let u := firstNs body
+    let (_, dt, body0) := splitProlog ns
+    let u := firstNs body0
+    -- with `strip_whitespace=True` the theorems speak about the normalised forest (`*_strip_partial`)
+    -- Markup text leaves, strip off: the theorems speak about the plain form (`*_markup_partial`)
+    let mk := !strip && hasMarkup body0 && forestUniformNs u body0
+    let body := if strip then normForest .html body0 else if mk then plainF .html false body0 else body0
     if u == xmlNs then out "xml-namespace"
-    else if !okList body then out "not-a-forest"
-    else if !forestUniformNs u body then out "mixed-namespaces"
+    else if mk && !mkDom .html body0 then out "markup-domain"
+    else if !okList body0 then out "not-a-forest"
+    -- forests that mix namespaces: `html_roundtrip_doc_mixed_partial` / `…_mixed_strip_partial` (same right-hand side)
+    else if !forestUniformNs u body0 && !forestMixedOk body0 then out "mixed-namespaces-xml"
+    else if strip && !wsDom .html body0 then out "whitespace-domain"
     else if !htmlForestOkP body then out "body-hypotheses"
     else if !dtOkOf (winDt dopt dt) || !dtNoGtOf (winDt dopt dt) then out "doctype-fields"
     else .list [.atom "ok", .list ((htmlDocView (winDt dopt dt) (forestPiecesP body)).flatMap htok)]
 
-def expectXhtml (dropd : Bool) (dopt : Option DocTypeT) (s : Stream) : Sexp :=
+def expectXhtml (strip : Bool) (dropd : Bool) (dopt : Option DocTypeT) (s : Stream) : Sexp :=
   match forestOf s with
   | none => out "not-nested"
   | some ns =>
-    let (decl, dt, body) := splitProlog ns
-    let u := firstNs body
+    let (decl, dt, body0) := splitProlog ns
+    let u := firstNs body0
+    let mk := !strip && hasMarkup body0 && forestUniformNs u body0
+    let body := if strip then normForest .xhtml body0 else if mk then plainF .xhtml false body0 else body0
     if u == xmlNs then out "xml-namespace"
+    else if mk && !mkDom .xhtml body0 then out "markup-domain"
     else if !docNcr u dopt decl dt body then out "carriage-return"
     else if !attrValOkB u then out "namespace-uri"
-    else if !okList body then out "not-a-forest"
-    else if !forestUniformNs u body then out "mixed-namespaces"
+    else if !okList body0 then out "not-a-forest"
+    else if !forestUniformNs u body0 then
+      -- forests that mix namespaces: `xhtml_roundtrip_tree_mixed_qnames(_strip)_partial` — every element in its own
+      -- namespace (`forestPiecesQ`)
+      (if dopt.isSome || ns.length != body0.length || !dropd then out "mixed-namespaces"
+       else if !forestMixedOk body0 then out "mixed-namespaces-xml"
+       else if strip && !wsDom .xhtml body0 then out "whitespace-domain"
+       else if !xhtmlForestOk body || !forestNsValsOk body then out "mixed-body-hypotheses"
+       else if !xmlForestOk true body then out "mixed-not-resolvable"
+       else .list [.atom "ok", .list ((mergeGoQ [] (forestPiecesQ body)).map xtok)])
+    else if strip && !wsDom .xhtml body0 then out "whitespace-domain"
     else if !xKidsOkP false body then out "body-hypotheses"
     else if !xmlForestOkP true body then out "not-resolvable"
     else if !xdViewOk ⟨dropd⟩ decl then out "xmldecl-fields"
@@ -124,17 +154,39 @@ def expectXhtml (dropd : Bool) (dopt : Option DocTypeT) (s : Stream) : Sexp :=
     else .list [.atom "ok", .list ((xdXOf ⟨dropd⟩ decl ++ (dtXOf (winDt dopt dt) ++
       (assemble (forestPiecesXP u false body)).flatMap (xmlMapTok u))).map xtok)]
 
+def method? : String → Option Method
+  | "html" => some .html
+  | "xhtml" => some .xhtml
+  | "xml" => some .xml
+  | _ => none
+
+/-- `wsforest`: `WhitespaceFilter` as a function on the forest (`wsForest`), flattened again, and the
+    normalised forest of the specification (`normForest`) with its domain -/
+def wsForestAnswer (m : Method) (s : Stream) : Sexp :=
+  match forestOf s with
+  | none => out "not-nested"
+  | some ns =>
+    if !okList ns then out "not-a-forest"
+    else .list [.atom "ok", streamToSexp (flattenList (wsForest (wsCfg m) ns)),
+                (if wsDom m ns then .atom "T" else .atom "F"), streamToSexp (flattenList (normForest m ns))]
+
 def handle : List Sexp → Option Sexp
-  -- expect <method> <drop_xml_decl> <doctype> <stream>
-  | [.atom "expect", .atom m, dropd, dt, s] => do
+  -- expect <method> <strip> <drop_xml_decl> <doctype> <stream>
+  | [.atom "expect", .atom m, strip, dropd, dt, s] => do
+      let strip ← strip.toBool?
       let dropd ← dropd.toBool?
       let s ← streamOfSexp? s
       match doctype? dt with
       | none => pure (.atom "unmodelled")
       | some dt =>
-        if m == "html" then pure (expectHtml dt s)
-        else if m == "xhtml" then pure (expectXhtml dropd dt s)
+        if m == "html" then pure (expectHtml strip dt s)
+        else if m == "xhtml" then pure (expectXhtml strip dropd dt s)
         else none
+  -- wsforest <method> <stream>
+  | [.atom "wsforest", .atom m, s] => do
+      let m ← method? m
+      let s ← streamOfSexp? s
+      pure (wsForestAnswer m s)
   | [.atom "read", .atom "html", .str s] =>
       match readHtml s with
       | some ts => some (.list (ts.flatMap htok))
